@@ -28,8 +28,32 @@ def err_class(text):
     return "other"
 
 
-def decide(ctx, rs, missing, err, aspects, theorem, suite, keyf=None, errclass_only=False):
+def spec_checks(ctx, cases, suite):
+    """T1 / T2 as executable statements: on every case the one-pass parser must agree with grammar ; code generator
+    (t2check) and executing the generated code must agree with the big-step semantics over names (t1check).
+    A disagreement means the Spec and the Model have drifted apart: a broken proof obligation, reported as such."""
+    small = [c for c in cases if len(c["src"]) < 20000]
+    res = ctx.model([("t2check", "t2/" + c["id"], c["src"]) for c in small] + [("t1check", "t1/" + c["id"], c["src"]) for c in small],
+                    timeout=3000)
+    stats = {}
+    bad = 0
+    for c in small:
+        for k in ("t1/", "t2/"):
+            r = res.get(k + c["id"], "missing")
+            key = k + r.split(" ")[0] + (" " + r.split(" ")[1] if r.startswith(("skip", "agree")) and " " in r else "")
+            stats[key] = stats.get(key, 0) + 1
+            if r.startswith("DISAGREE") or r == "missing":
+                bad += 1
+                if bad <= 3:
+                    ctx.broken.append(("proof", "statement of %s fails on an input (Spec vs Model)" % ("T1" if k == "t1/" else "T2"),
+                                       "%s on %r" % (r, c["src"][:200])))
+    ctx.suite_stats[suite + "_spec"] = stats
+
+
+def decide(ctx, rs, missing, err, aspects, theorem, suite, keyf=None, errclass_only=False, spec=True):
     """model is the oracle: a disagreement on the projected observables is a concrete failing input"""
+    if spec:
+        spec_checks(ctx, [c for c, o, m in rs], suite)
     ndis = 0
     classes = {}
     for cid in missing[:3]:
